@@ -2,7 +2,9 @@ package c13
 
 import (
 	"bytes"
+	"encoding/binary"
 	"fmt"
+	"sort"
 	"sync"
 
 	"github.com/go-text/typesetting/font"
@@ -48,7 +50,14 @@ var staticIDs = []string{
 	"ot/common/Raleway-v4020-Regular.otf",
 }
 
+// synthTwoStrikes is a font built in memory from ot/toys/Sbix1.ttf: its single
+// 'sbix' strike is duplicated under another ppem, so that glyph extents depend
+// on Face.SetPpem (no corpus font has that property; without it a stale extents
+// cache after SetPpem would be unobservable).
+const synthTwoStrikes = "synth/Sbix1-two-strikes"
+
 var bitmapIDs = []string{
+	synthTwoStrikes,
 	"ot/bitmap/NotoColorEmoji.ttf",
 	"ot/toys/Sbix1.ttf",
 	"ot/toys/CBLC1.ttf",
@@ -98,17 +107,93 @@ func loadPool() {
 	})
 }
 
-func loadFont(id string) (*fontInfo, error) {
-	f := corpus.ByID(id)
-	if f == nil {
-		return nil, fmt.Errorf("not in corpus")
+// buildTwoStrikes rewrites the sfnt in data with its first sbix strike present
+// twice, the copy under half the ppem.
+func buildTwoStrikes(data []byte) ([]byte, error) {
+	ld, err := ot.NewLoader(bytes.NewReader(data))
+	if err != nil {
+		return nil, err
 	}
-	fs, err := f.Fonts()
-	if err != nil || len(fs) == 0 {
-		return nil, fmt.Errorf("parse: %v", err)
+	sbixTag := ot.MustNewTag("sbix")
+	raw, err := ld.RawTable(sbixTag)
+	if err != nil || len(raw) < 12 {
+		return nil, fmt.Errorf("no sbix table")
+	}
+	n := int(binary.BigEndian.Uint32(raw[4:]))
+	if n < 1 || len(raw) < 8+4*n {
+		return nil, fmt.Errorf("bad sbix header")
+	}
+	start := int(binary.BigEndian.Uint32(raw[8:]))
+	end := len(raw)
+	if n > 1 {
+		end = int(binary.BigEndian.Uint32(raw[12:]))
+	}
+	if start < 8+4*n || end > len(raw) || end-start < 4 {
+		return nil, fmt.Errorf("bad sbix strike offsets")
+	}
+	strike := raw[start:end]
+	ppem := binary.BigEndian.Uint16(strike)
+	if ppem < 4 {
+		return nil, fmt.Errorf("strike ppem too small")
+	}
+	out := make([]byte, 16, 16+2*len(strike))
+	copy(out, raw[:4])
+	binary.BigEndian.PutUint32(out[4:], 2)
+	binary.BigEndian.PutUint32(out[8:], 16)
+	binary.BigEndian.PutUint32(out[12:], uint32(16+len(strike)))
+	out = append(out, strike...)
+	out = append(out, strike...)
+	binary.BigEndian.PutUint16(out[16+len(strike):], ppem/2)
+	var tbs []ot.Table
+	for _, tag := range ld.Tables() {
+		c, err := ld.RawTable(tag)
+		if err != nil {
+			return nil, err
+		}
+		if tag == sbixTag {
+			c = out
+		}
+		tbs = append(tbs, ot.Table{Tag: tag, Content: c})
+	}
+	sort.Slice(tbs, func(i, j int) bool { return tbs[i].Tag < tbs[j].Tag })
+	return ot.WriteTTF(tbs), nil
+}
+
+func loadFont(id string) (*fontInfo, error) {
+	var data []byte
+	var fs []*font.Font
+	if id == synthTwoStrikes {
+		src := corpus.ByID("ot/toys/Sbix1.ttf")
+		if src == nil {
+			return nil, fmt.Errorf("source font not in corpus")
+		}
+		var err error
+		if data, err = buildTwoStrikes(src.Bytes()); err != nil {
+			return nil, err
+		}
+		ld, err := ot.NewLoader(bytes.NewReader(data))
+		if err != nil {
+			return nil, err
+		}
+		ft, err := font.NewFont(ld)
+		if err != nil {
+			return nil, err
+		}
+		fs = []*font.Font{ft}
+	} else {
+		f := corpus.ByID(id)
+		if f == nil {
+			return nil, fmt.Errorf("not in corpus")
+		}
+		var err error
+		fs, err = f.Fonts()
+		if err != nil || len(fs) == 0 {
+			return nil, fmt.Errorf("parse: %v", err)
+		}
+		data = f.Bytes()
 	}
 	fi := &fontInfo{id: id, font: fs[0]}
-	if lds, err := ot.NewLoaders(bytes.NewReader(f.Bytes())); err == nil && len(lds) > 0 {
+	if lds, err := ot.NewLoaders(bytes.NewReader(data)); err == nil && len(lds) > 0 {
 		if raw, err := lds[0].RawTable(ot.MustNewTag("fvar")); err == nil {
 			if fv, _, err := tables.ParseFvar(raw); err == nil {
 				fi.axes = fv.FvarRecords.Axis
